@@ -39,11 +39,15 @@ def configs(tier):
     # one multi-extension file listed once per extension; segments without any data ahead of one with data
     cfgs.append(stages.MultiTan(nimg=3, W=2, from_files=True, mef=True, max_deviations=2 if tier == "quick" else None))
     cfgs.append(stages.MultiWcs(nimg=3, W=2, nan_images=(0, 1), max_deviations=3 if tier == "quick" else None))
+    # one processor object used for two parallel tilings in a row
+    cfgs.append(stages.MultiTan(nimg=2, W=2, twice=True, max_deviations=2 if tier == "quick" else 4))
     # top-down tile formats take other branches of the multi-WCS placement code
     cfgs.append(stages.MultiWcs(nimg=2, W=2, fmt="npy"))
     # wide item sets (16 384 leaves / 5 461 tiles), default schedule only, cut at a horizon in the quick tier
     cfgs.append(V(kind="generic", depth=7, W=2, max_deviations=0, horizon_steps=40000 if tier == "quick" else None))
     cfgs.append(T(depth=6, W=2, max_deviations=0, horizon_steps=40000 if tier == "quick" else None))
+    # a wide item set whose size is not a multiple of anything convenient (1 023 leaves: more than 256 per worker)
+    cfgs.append(V(kind="filtered", depth=5, W=2, accepted=stages.all_but(5, [(5, 9, 20)]), max_deviations=0))
     # deep pyramids restricted to an apex just above the leaves
     cfgs.append(V(kind="generic", depth=10, W=2, apex=(9, 300, 7)))
     cfgs.append(V(kind="toast", depth=9, W=2, apex=(8, 5, 9)))
